@@ -211,10 +211,12 @@ func (sl *vSimLeader) close() {
 }
 
 // appendMsg stores a message of the given epoch in the phantom leader's log.
-func (sl *vSimLeader) appendMsg(epoch uint64, value string) int64 {
+func (sl *vSimLeader) appendMsg(epoch uint64, value string) int64 { return sl.appendKV(epoch, nil, []byte(value)) }
+
+func (sl *vSimLeader) appendKV(epoch uint64, key, value []byte) int64 {
 	sl.mu.Lock()
 	defer sl.mu.Unlock()
-	offs, err := sl.log.Append([]*commitlog.Message{{MagicByte: 1, Timestamp: time.Now().UnixNano(), LeaderEpoch: epoch, Offset: -1, Value: []byte(value), Headers: map[string][]byte{}}})
+	offs, err := sl.log.Append([]*commitlog.Message{{MagicByte: 1, Timestamp: time.Now().UnixNano(), LeaderEpoch: epoch, Offset: -1, Key: key, Value: value, Headers: map[string][]byte{}}})
 	if err != nil {
 		panic(err)
 	}
